@@ -6,18 +6,19 @@ PROP = 'C07'
 LEVEL = 'exploration'
 WALL_CAP = {'quick': 300, 'thorough': 3000}
 RULE = ('one run = a model (sample, synthesised file of any block type x version, API-built model) edited by 0..8 NifFile-level steps (vertex deletion, cloning, added shapes / '
-        'nodes / extra data / loose blocks, conversion LE<->SE, deletions, sorting, renames, texture edits) with saves and restarts in between; every file written is parsed by '
+        'nodes / extra data / loose blocks, conversion LE<->SE, deletions, sorting, renames, texture edits) with saves and restarts in between (restarts into a fresh object or back into the object that wrote the file; the object is also reused for another sample file or a newly created model of another version); every file written is parsed by '
         'the independent reader: block count, type table (no duplicate, no unused name), type of every block, size of every block (== independent serialisation of that block), '
         'walk from header end by the size table lands on the 8-byte footer at EOF, string table without duplicates (no unknown blocks), max string length, every string index '
         'field (located by the string hook) empty or inside the table. non-trivial = at least one file was written and walked; distinct = distinct (initial state, effective step trace).')
 ASSUMPTIONS = ['30 % of the intermediate saves go to a non-seekable stream (fault F-NOSEEK: tellp() fails, the size table cannot be back-patched)', 'versions without a table are skipped for that table (Oblivion: no sizes, no string table; the walk then uses independent serialisation sizes)',
                'nifparse shares no code with nifly']
-EXPECTED_PROBES = ['files_walked', 'edit_delete_verts', 'edit_clone_shape', 'edit_add_loose_block', 'edit_convert', 'edit_add_shape']
+EXPECTED_PROBES = ['object_reused_for_another_file', 'object_reused_for_a_new_model', 'restart_into_same_object', 'files_walked', 'edit_delete_verts', 'edit_clone_shape', 'edit_add_loose_block', 'edit_convert', 'edit_add_shape']
 
 
 def gen_plan(seed, i, tier):
     rng = Rng(seed, PROP, i)
     names = [n for n, sz in inputs.sample_names('in')]
+    old_names = [n for n in names if n.endswith('_OB') or '_OB_' in n or 'OB' in n.split('_')] or names
     r = rng.below(100)
     ver = None
     if r < 55:
@@ -43,7 +44,18 @@ def gen_plan(seed, i, tier):
                 st['pipe'] = True
             if st['op'] == 'Restart' and rng.chance(0.3):
                 st['fail_first'] = rng.below(20000)   # a save attempt lost to a failing stream before the one that counts    # the file goes to a stream that cannot seek (pipe, socket, compressor)
+            if st['op'] == 'Restart' and rng.chance(0.3):
+                st['same_object'] = True
             steps.append(st)
+        elif rng.chance(0.06):
+            # object reuse: the same NifFile object goes on with another file or a new model (often of an older version)
+            if rng.chance(0.7):
+                pool_ = old_names if rng.chance(0.5) else names
+                steps.append({'op': 'LoadInto', 'sample': rng.choice(pool_)})
+            else:
+                ver = rng.choice(['OB', 'OB', 'FO3', 'SK', 'SSE', 'FO4', 'FO76'])
+                steps.append({'op': 'CreateInto', 'version': ver})
+            synth_init = False
         else:
             steps.append(edits.edit_step(rng, 'quick', version_hint=ver, allow=safe if synth_init else swarm))
     return {'property': PROP, 'profile': 'writemon', 'run_index': i, 'init': init, 'steps': steps, 'final_raw': rng.chance(0.5), 'timeout_s': 60}
